@@ -178,10 +178,10 @@ PROPERTIES = {
     },
     "C18": {
         "title": "dc: packets round-trip and only authenticated packets are acted upon",
-        "steps": [seq("c18.*")],
+        "steps": [seq("c18.*"), {"kind": "bin", "engine": "dcmc", "families": ["C18"]}],
         "technique": "bounded-exhaustive field-tuple / byte-string / tamper enumeration on the real dc packet codecs and crypto + explicit-state search of the real path-secret Map under forged control packets",
         "level_text": "c18.roundtrip: 3.2e5 field tuples over varint edges, payload/header sizes and all flag combinations for stream / datagram / control / UnknownPathSecret / StaleKey / ReplayDetected packets (plus probes and retransmissions), both cipher suites with the real key schedule and aws-lc keys: decode(encode(x)) == x after decrypt, announced length == consumed length, trailing bytes untouched. c18.totality: 1.7e7 (quick) / 1.7e8 (thorough) byte strings and substitutions into valid packets on 8 decoder entry points: no panic. c18.tamper: every byte x 9 masks, truncations, byte pairs, swaps, splices and foreign-secret sealing of every valid packet: rejected with no clear text handed out, or nothing the receiver acts on differs. c18.map: the real Map (entries installed through the production dc handshake callbacks) driven to depth 4 (quick) / 6 (thorough) over ~620 operations incl. every tampered byte position of genuine control packets: forged packets leave contains / len / next key id / handshake-request flag and 17 event counters unchanged, genuine ones have exactly their documented effect.",
-        "level_note": "One listed known finding (packet-space flag of retransmitted stream packets is unauthenticated). Documented exception: an UnknownPathSecret's queue id is outside the stateless-reset token by design (the map acts on the credential id only). Not covered: stream receiver state, socket router, uds packets, cleaner cycle.",
+        "level_note": "One listed known finding (packet-space flag of retransmitted stream packets is unauthenticated). Documented exception: an UnknownPathSecret's queue id is outside the stateless-reset token by design (the map acts on the credential id only). Not covered: stream receiver state, socket router, uds packets, cleaner cycle. dcmc garble family (real dc stream pairs over the simulated UDP network): for every datagram index of three (quick) / eight (thorough) transfers - stream packets and control packets of both directions - about 250 unauthentic variants (three masks on each of the first 48 bytes, variable-length integer bytes forced to large values, every tag byte flipped, truncated by one byte, zeroed tag) are delivered just ahead of the genuine datagram; the transfer must complete exactly as without them (PRF content, totals, EOF, no stall), so a stream-level decision taken before authentication (duplicate filter, flow-control error, reset) shows as a failed or stalled stream.",
         "design_ref": "DESIGN.md §3 C18",
         "assumptions": ["small-scope hypothesis", "aws-lc primitives are correct"],
     },
